@@ -2752,6 +2752,8 @@ func AddMarshalTags(att *expr.AttributeExpr, seen map[string]struct{}) {
 		natt.Attribute.Meta["struct:tag:form"] = ns
 		natt.Attribute.Meta["struct:tag:json"] = ns
 		natt.Attribute.Meta["struct:tag:xml"] = ns
+		// the attribute may itself be (or hold) an inline object
+		AddMarshalTags(natt.Attribute, seen)
 	}
 }
 
